@@ -132,9 +132,10 @@ def run_case(R, kind, cap, off, n, r, cross):
             R.fail("copy_to_native:source-changed", f"{kind}.copy_to_native changed the source buffer", ctx)
         R.tags["copy_to_native"] += 1
     # ---- update_from_buffer (bytes, bytearray, memoryview, ndarray.data)
-    for form in ("bytes", "bytearray", "memoryview", "npdata", "npdata16", "npdata64", "memoryview32"):
+    for form in ("bytes", "bytearray", "memoryview", "npdata", "npdata16", "npdata64", "memoryview32", "npdata2d", "npdata16x2d", "memoryview2d"):
         # typed views (items wider than a byte): "numpy array.data" of the docstring - len() of those counts items, not bytes
-        width = {"npdata16": 2, "npdata64": 8, "memoryview32": 4}.get(form, 1)
+        # ... and MULTI-dimensional ones (the .data of a matrix, a memoryview cast to a shape): len() is the first dimension only
+        width = {"npdata16": 2, "npdata64": 8, "memoryview32": 4, "npdata2d": 2, "npdata16x2d": 4, "memoryview2d": 2}.get(form, 1)
         if n % width or (width > 1 and n == 0):
             continue
         b, before = mk_buffer(kind, cap, r)
@@ -143,7 +144,10 @@ def run_case(R, kind, cap, off, n, r, cross):
                "npdata": lambda: np.frombuffer(src, dtype="uint8").copy().data,
                "npdata16": lambda: np.frombuffer(src, dtype="int16").copy().data,
                "npdata64": lambda: np.frombuffer(src, dtype="float64").copy().data,
-               "memoryview32": lambda: memoryview(src).cast("I")}[form]()
+               "memoryview32": lambda: memoryview(src).cast("I"),
+               "npdata2d": lambda: np.frombuffer(src, dtype="uint8").copy().reshape(-1, 2).data,
+               "npdata16x2d": lambda: np.frombuffer(src, dtype="int16").copy().reshape(-1, 2).data,
+               "memoryview2d": lambda: memoryview(src).cast("B", (len(src) // 2, 2))}[form]()
         ctx = dict(ctx0, prim="update_from_buffer", args=(off, form, src.hex()))
         ok, _ = call(R, "update_from_buffer", kind, lambda: b.update_from_buffer(off, arg), ctx)
         if ok:
